@@ -53,7 +53,9 @@ UNSUPPORTED_STMTS = [
     "V = array(i for i in range(V))", "V = array(a for a in range(2) for b in range(2))", "V = array(i for i in range(3) if i > 1)",
     "V = array(q for q in array(qubit(), qubit()))", "V = array(h(V) for _ in range(2))", "V = array(qubit() for _ in range(K))",
     "with dagger:\n    pass", "with control(V):\n    pass", "with power(2):\n    h(V)", "with dagger, control(V):\n    return", "with control():\n    pass",
-    "with control(V,\n             V), dagger:\n    return", "with dagger():\n    break", "with power(1, 2):\n    pass", "with dagger as d:\n    pass",
+    "with control(V,\n             V), dagger:\n    return", "_t = array(ident, ident)", "_t = ident(ident)", "_t = ident(ident)(1)",
+    "_t = array(ident for _ in range(2))", "_t = array(V, V)", "_t = V(V)", "_t = first((V, V))", "_t = some(V)", "_t = 1e999", "_t = -1e999",
+    "_t = array(i async for i in range(2))", "_t = [V async for _ in V]", "'doc'\n'doc'", "_t = V if V else V", "_t = (V, V)[0]", "with dagger():\n    break", "with power(1, 2):\n    pass", "with dagger as d:\n    pass",
 ]
 
 UNSUPPORTED_EXPRS = [
